@@ -1,2 +1,80 @@
-"""Classifiers for the open entries of known_findings.json (see findings.py)."""
+"""Classifiers for the open entries of known_findings.json (see findings.py).
+
+A classifier gets (check module, plan, violation record) and answers whether the
+violation *is* that finding.  They are deliberately narrow: structural facts come
+from the independent framing scanner, and differential re-execution of the same
+plan with one knob changed."""
+import copy
+
+from simkit import tlv
 from simkit.findings import classifier
+
+
+def _drop_inside_definite(stream, threshold):
+    """Could CachingStreamWrapper drop (and renumber) its cache at a mark point that
+    lies inside a definite-length TLV?  Pure framing arithmetic.  The decoder sets
+    the mark at the start of every TLV it descends into and, for an untagged
+    CHOICE, once more right after the header; the cache is dropped at a mark when
+    more than `threshold` bytes are cached.  Which TLVs are descended into depends
+    on the schema, which the scanner does not know, so both mark sets (starts only;
+    starts and header ends) are simulated and either may hit."""
+    return _sim_marks(stream, threshold, False) or _sim_marks(stream, threshold, True)
+
+
+def _sim_marks(stream, threshold, header_marks):
+    pos = 0
+    base = [0]
+    hit = [False]
+
+    def mark(p, inside_definite):
+        if p - base[0] > threshold:
+            base[0] = p
+            if inside_definite:
+                hit[0] = True
+
+    def visit(n, open_definite):
+        mark(n.start, open_definite)
+        if header_marks:
+            mark(n.hdr_end, open_definite or n.length != -1)
+        inner = open_definite or (n.constructed and n.length != -1)
+        for c in n.children:
+            visit(c, inner)
+
+    while pos < len(stream):
+        try:
+            n = tlv.scan(stream, pos)
+        except (tlv.ScanError, RecursionError):
+            break
+        visit(n, False)
+        pos = n.end
+    return hit[0]
+
+
+@classifier('f6_cache_renumbering')
+def f6_cache_renumbering(mod, plan, viol):
+    """F6: on a non-seekable stream the wrapper renumbers positions when it drops its
+    cache at an element start, while enclosing definite-length frames still hold
+    absolute positions."""
+    conf = plan.get('config', {})
+    if conf.get('kind') != 'pipe':
+        return False
+    thr = conf.get('threshold')
+    if thr is None:
+        thr = 8192
+    stream = _plan_stream(plan)
+    if stream is None or not _drop_inside_definite(stream, thr):
+        return False
+    p2 = copy.deepcopy(plan)
+    p2['config']['threshold'] = 10 ** 9
+    res = mod.execute(p2)
+    return res['status'] != 'violation'
+
+
+def _plan_stream(plan):
+    from simkit import world as W
+    if 'raw_hex' in plan.get('workload', {}):
+        return bytes.fromhex(plan['workload']['raw_hex'])
+    try:
+        return W.Workload(plan['workload']).stream
+    except W.Skip:
+        return None
